@@ -49,6 +49,9 @@ var structTable = map[string]ctor{
 	"WriteMultipleRegistersResponse":     {coq: "PWMulti 16", args: []string{"UnitID", "StartAddress", "RegisterCount"}, typeName: "resp"},
 	"ReadServerIDResponse":               {coq: "PSrvId", args: []string{"UnitID", "Status", "ServerID", "AdditionalData"}, typeName: "resp"},
 
+	// registers.go                                RegistersModel.registers (data is a GoSem.slice)
+	"Registers": {coq: "Build_registers", args: []string{"defaultByteOrder", "startAddress", "endAddress", "data"}, typeName: "registers"},
+
 	// error payloads                              PacketModel.exc / perr
 	"ErrorResponseTCP": {coq: "mk_exc", args: []string{"TransactionID", "UnitID", "Function", "Code"}, typeName: "exc"},
 	"ErrorResponseRTU": {coq: "", args: []string{"UnitID", "Function", "Code"}, typeName: "(N * N * N)"},
@@ -86,10 +89,18 @@ var plainErrorCalls = map[string]bool{"errors.New": true, "fmt.Errorf": true}
 func isTarget(fd *funcDecl) (mode string, ok bool) {
 	n := fd.decl.Name.Name
 	switch {
+	case fd.file == "registers.go":
+		// stage 5: everything in registers.go
+		return "full", true
 	case fd.recv != "" && n == "ExpectedResponseLength":
+		return "full", true
+	case fd.recv != "" && (n == "Bytes" || n == "bytes"):
+		// stage 4: the encoders
 		return "full", true
 	case fd.recv != "":
 		return "", false
+	case n == "putReadRequestBytes", n == "CoilsToBytes", n == "isBitSet":
+		return "full", true
 	case n == "CRC16", n == "ParseMBAPHeader", n == "LooksLikeModbusTCP",
 		n == "AsTCPErrorPacket", n == "AsRTUErrorPacket", n == "AsRTUErrorPacketWithCRC":
 		return "full", true
